@@ -218,3 +218,65 @@ Example C07_from_init_nonvacuous :
   length (delivered 7 d0 all) = 5%nat /\
   replay (delivered 7 d0 all) = [([98], (5, 4))].
 Proof. exact fresh_hypotheses_satisfiable. Qed.
+
+(* ======================================================================================================
+   Any monotone choice of snapshots (Table/ChangesSnap.v): Next may be called with retained snapshots
+   (OSnap, or the ReadTxn returned by OCommit). Positions: `mstep` stamps every snapshot taken while the
+   iterator's tracker is registered in the committed root (= at or after the creating transaction
+   committed) with the position in the run of the operation that took it; a fresh read transaction /
+   the current write transaction has the position of the Next itself. `mfriendly`: the snapshot handed
+   to Next is stamped and its position is not below that of the snapshot handed to the previous
+   refreshing Next of this iterator (plus, as before: the id is not re-used, the creating transaction
+   is not aborted). The retention hypotheses are discharged by the pairwise snapshot invariant SInv.
+   ====================================================================================================== *)
+From SV Require Import Table.ChangesSnap.
+
+Theorem C07_strictly_increasing_any_monotone_snapshots : forall iid tab n pre t0 ops,
+  room_run (init_db n) (pre ++ OChanges iid tab :: ops) ->
+  created (fst (run (init_db n) pre)) iid tab t0 ->
+  (forall cur, nth_error (d_root (fst (run (init_db n) pre))) tab = Some cur -> ~ reg iid cur) ->
+  mfriendly_run iid tab mg0 (fst (step (fst (run (init_db n) pre)) (OChanges iid tab))) ops ->
+  asc (map crev (delivered iid (fst (step (fst (run (init_db n) pre)) (OChanges iid tab))) ops)).
+Proof. exact init_strictly_increasing_mono. Qed.
+Print Assumptions C07_strictly_increasing_any_monotone_snapshots.
+
+Theorem C07_converges_any_monotone_snapshots : forall iid tab n pre t0 ops s S,
+  let d := fst (run (init_db n) pre) in
+  let d0 := fst (step d (OChanges iid tab)) in
+  room_run (init_db n) (pre ++ OChanges iid tab :: ops ++ [ONext iid s None]) ->
+  created d iid tab t0 ->
+  (forall cur, nth_error (d_root d) tab = Some cur -> ~ reg iid cur) ->
+  mfriendly_run iid tab mg0 d0 (ops ++ [ONext iid s None]) ->
+  next_source (fst (run d0 ops)) iid s = Some S ->
+  replay (delivered iid d0 (ops ++ [ONext iid s None])) = abs_of S.
+Proof. exact init_converge_next_mono. Qed.
+Print Assumptions C07_converges_any_monotone_snapshots.
+
+Theorem C07_converges_whenever_exhausted_any_monotone_snapshots : forall iid tab n pre t0 ops,
+  room_run (init_db n) (pre ++ OChanges iid tab :: ops) ->
+  created (fst (run (init_db n) pre)) iid tab t0 ->
+  (forall cur, nth_error (d_root (fst (run (init_db n) pre))) tab = Some cur -> ~ reg iid cur) ->
+  mfriendly_run iid tab mg0 (fst (step (fst (run (init_db n) pre)) (OChanges iid tab))) ops ->
+  forall it,
+  assoc iid (d_iters (fst (run (fst (step (fst (run (init_db n) pre)) (OChanges iid tab))) ops))) = Some it ->
+  it_pending it = None ->
+  replay (delivered iid (fst (step (fst (run (init_db n) pre)) (OChanges iid tab))) ops) =
+  abs_of (fst (grun iid (t0, []) (fst (step (fst (run (init_db n) pre)) (OChanges iid tab))) ops)).
+Proof. exact init_converge_mono. Qed.
+Print Assumptions C07_converges_whenever_exhausted_any_monotone_snapshots.
+
+(* satisfiable: Next on the creating Commit's ReadTxn (partial), on old retained snapshots across a
+   delete / re-insert / re-delete of one key with collection scans and applies in between, then fresh *)
+Example C07_any_monotone_snapshots_nonvacuous :
+  let d := fst (run (init_db 1) ex_pre) in
+  let d0 := fst (step d (OChanges 7 0)) in
+  let all := sx_ops ++ [ONext 7 SFresh None] in
+  room_run (init_db 1) (ex_pre ++ OChanges 7 0 :: all) /\
+  (exists t0, created d 7 0 t0) /\
+  (forall cur, nth_error (d_root d) 0 = Some cur -> ~ reg 7 cur) /\
+  mfriendly_run 7 0 mg0 d0 all /\
+  (exists S, next_source (fst (run d0 sx_ops)) 7 SFresh = Some S) /\
+  map (fun c => (p_id (o_data (fst c)), o_rev (fst c), snd c)) (delivered 7 d0 all) =
+    [([97], 1, false); ([97], 3, true); ([98], 4, false); ([97], 5, false); ([97], 6, true)] /\
+  replay (delivered 7 d0 all) = [([98], (5, 4))].
+Proof. exact mono_hypotheses_satisfiable. Qed.
